@@ -272,6 +272,77 @@ def load_known(pid):
     return found
 
 
+# ---------------------------------------------------------------- translation tie (DESIGN.md section 4.5)
+
+def tie_stage(pid, obl):
+    """Gen/Trans.lean was regenerated from the current source by harness/pytrans.py; re-check the theorems
+    NV.Tie.* (translated function = hand-written model function) this property relies on.  Returns None when the
+    property has none, else {'theorems', 'proved', 'lost': {name: why}, 'functions': {name: 'file Class.func'}}.
+    A lost tie theorem is NOT a violation: for that function the tie falls back to the correspondence, which is
+    widened, and the evidence says so."""
+    names = obl.get('tie_theorems') or []
+    if not names:
+        return None
+    import pytrans
+    res = {'theorems': names, 'proved': [], 'lost': {}, 'functions': {}}
+    for f in pytrans.FUNCS:
+        if f.get('tie') in names:
+            res['functions'][f['tie']] = 'netaddr/%s %s.%s' % (f['file'], f['cls'], f['func'])
+    try:
+        _lean, report = pytrans.translate_all()
+    except Exception as e:
+        report = {}
+        res['lost'] = {n: 'translator failed: %s: %s' % (type(e).__name__, e) for n in names}
+        return res
+    untrans = {f['tie']: report[f['name']]['why'] for f in pytrans.FUNCS
+               if f.get('tie') in names and not report.get(f['name'], {}).get('ok')}
+    with lean_lock():
+        rc, out = lake(['build', 'NetaddrVerif.Props.Tie'])
+        if rc == 0:
+            ax, _raw = audit(pid + '_tie', {'theorems': names, 'modules': ['NetaddrVerif.Props.Tie']})
+        else:
+            # some theorem no longer elaborates against the regenerated definitions: elaborate a copy of the file
+            # with error recovery and ask for the axioms of every theorem (a broken one, and everything that
+            # depends on it, shows sorryAx or is missing)
+            lake(['build', 'NetaddrVerif.Lemmas.TieL', 'NetaddrVerif.Model.Convert', 'NetaddrVerif.Model.Subnet',
+                  'NetaddrVerif.Model.Compare', 'NetaddrVerif.Gen.Trans'])
+            src = open(os.path.join(LEAN, 'NetaddrVerif', 'Props', 'Tie.lean'), encoding='utf-8').read()
+            src += '\n' + ''.join('#print axioms %s\n' % n for n in names)
+            fn = os.path.join(LEAN, 'Audit_%s_tiecopy.lean' % pid)
+            with open(fn, 'w', encoding='utf-8') as f:
+                f.write(src)
+            try:
+                p = subprocess.run(['lake', 'env', 'lean', os.path.basename(fn)], cwd=LEAN, stdout=subprocess.PIPE,
+                                   stderr=subprocess.STDOUT, timeout=1200)
+                raw = p.stdout.decode('utf-8', 'replace')
+            finally:
+                try:
+                    os.remove(fn)
+                except OSError:
+                    pass
+            flat = re.sub(r'\s+', ' ', raw)
+            ax = {}
+            for n in names:
+                m = re.search(r"'%s' depends on axioms: \[([^\]]*)\]" % re.escape(n), flat)
+                if m:
+                    ax[n] = [a.strip() for a in m.group(1).split(',') if a.strip()]
+                elif re.search(r"'%s' does not depend on any axioms" % re.escape(n), flat):
+                    ax[n] = []
+                else:
+                    ax[n] = None
+    for n in names:
+        a = ax.get(n)
+        if n in untrans:
+            res['lost'][n] = 'source no longer in the translatable subset: %s' % untrans[n]
+        elif a is None:
+            res['lost'][n] = 'theorem does not elaborate against the current source'
+        elif not set(a) <= ALLOWED_AXIOMS:
+            res['lost'][n] = 'proof no longer closes against the current source (axioms %s)' % a
+        else:
+            res['proved'].append(n)
+    return res
+
+
 # ---------------------------------------------------------------- main flows
 
 def do_setup():
@@ -284,6 +355,10 @@ def do_setup():
         mods.update(json.load(open(f)).get('modules', []))
     with lean_lock():
         rc, out = lake(['build'] + sorted(mods) + ['driver'])
+        if rc == 0:
+            rc_t, out_t = lake(['build', 'NetaddrVerif.Props.Tie'])
+            if rc_t != 0:
+                out += '\n(translation tie module did not build; the checks fall back to correspondence for it)\n' + out_t[-600:]
     sys.stdout.write(out[-3000:])
     return 0 if rc == 0 else 2
 
@@ -430,6 +505,20 @@ def run_check(pid, tier, seed, t0):
     log('[%s] proof: %d/%d obligations discharged (%s)' % (pid, discharged, len(obl['theorems']),
                                                            'build ok' if proof_ok else 'BUILD BROKEN'))
 
+    # ---- translation tie: functions whose current source text is translated and proved equal to the model
+    tie = None
+    try:
+        tie = tie_stage(pid, obl)
+    except Exception as e:
+        notes.append('translation tie could not be checked (%s: %s)' % (type(e).__name__, e))
+        tie = {'theorems': obl.get('tie_theorems') or [], 'proved': [], 'functions': {},
+               'lost': {n: 'tie stage failed' for n in (obl.get('tie_theorems') or [])}}
+    if tie:
+        log('[%s] translation tie: %d/%d functions of the current source proved equal to their model function%s' % (
+            pid, len(tie['proved']), len(tie['theorems']),
+            '' if not tie['lost'] else ' - LOST (falls back to correspondence, widened): ' + '; '.join(
+                '%s [%s]: %s' % (n, tie['functions'].get(n, '?'), w) for n, w in sorted(tie['lost'].items()))[:900]))
+
     # ---- where did the code move?  (effort allocation only, see harness/fingerprint.py)
     moved = {}
     try:
@@ -438,6 +527,9 @@ def run_check(pid, tier, seed, t0):
     except Exception as e:
         notes.append('fingerprint comparison failed (%s: %s); search widened' % (type(e).__name__, e))
         moved = {'?': ['?']}
+    if tie and tie['lost']:
+        moved = dict(moved)
+        moved['<translation tie>'] = sorted(tie['lost'])
     if moved:
         log('[%s] source differs from the revision the model was validated against in %s - correspondence widened' % (
             pid, '; '.join('%s: %s' % (f, ', '.join(u[:6]) + (' ...' if len(u) > 6 else '')) for f, u in sorted(moved.items()))[:600]))
@@ -608,6 +700,12 @@ def run_check(pid, tier, seed, t0):
             'oracle_failures': len(oracle_fail),
             'known_finding_hits': known_hit,
             'proof_build_ok': proof_ok,
+            'tie_by_translation': (None if not tie else {
+                'what': 'harness/pytrans.py translates the CURRENT source text of these functions into Gen/Trans.lean; '
+                        'the listed NV.Tie theorems (kernel-checked, same axiom audit) state that each translated function '
+                        'equals the hand-written model function under the code\'s own range guards; a lost theorem falls '
+                        'back to the (widened) correspondence and is not a violation by itself',
+                'functions': tie['functions'], 'proved': tie['proved'], 'lost': tie['lost']}),
             'leanchecker_exit': leanchecker,
             'broken': broken[:10],
             'notes': notes,
